@@ -79,7 +79,9 @@ fn scen(spec: RunSpec) -> ScenFut {
             });
             sim::probe("starved-node-schedule");
         }
-        sim::log(format!("CONFIG nodes={nodes} no_cas={no_cas} profile={profile} post_gates={post}"));
+        let unsafe_flag = !no_cas && sim::w(5) == 4;
+        let cache_flag = sim::w_bool(50);
+        sim::log(format!("CONFIG nodes={nodes} no_cas={no_cas} profile={profile} post_gates={post} allow_unsafe_overwrite={unsafe_flag} enable_cache={cache_flag}"));
         let base = sim::EPOCH_NS as i64;
         // generate workloads up front
         let mut all_paths: Vec<String> = Vec::new();
@@ -147,7 +149,10 @@ fn scen(spec: RunSpec) -> ScenFut {
             let n = n as u32;
             let store: Arc<dyn ObjectStore> =
                 if no_cas { SimStore::new_no_cas(inner.clone(), n) } else { SimStore::new(inner.clone(), n) };
-            let client = ObjectStoreMetadataClient::new(store, ObjectStoreMetadataConfig::default());
+            // non-default configuration in a part of the runs: the fallback flag for stores without conditional PUTs is
+            // set although this store has them (it must stay a fallback), and the read-cache flag is flipped
+            let mcfg = ObjectStoreMetadataConfig { allow_unsafe_overwrite: unsafe_flag, enable_cache: cache_flag, ..Default::default() };
+            let client = ObjectStoreMetadataClient::new(store, mcfg);
             let recs = recs.clone();
             hs.push(tokio::spawn(async move {
                 for op in ops {
